@@ -158,6 +158,7 @@ class SimOracle(object):
         self.pending_grants = {}
         self.arrivals = {}           # (obj, side) -> [(time, pid)]
         self.dropped_at = {}         # instant -> objects that an ending process held
+        self.traj = {}               # obj -> [(time, value, evno)] value after each event in which it changed
         self.skips = 0
         self.ops = 0
         for name, (kind, cap) in self.sc.objs.items():
@@ -245,6 +246,15 @@ class SimOracle(object):
         for kv in t[3:]:
             k, v = kv.split("=", 1)
             self.lib[k] = v
+        # per-event trajectory of every recordable object (C14: every change visible at an event
+        # boundary must have its own sample)
+        for name, (kind, cap) in self.sc.objs.items():
+            if kind == "cond":
+                continue
+            v = self.value_of(name, kind)
+            tr = self.traj.setdefault(name, [])
+            if not tr or tr[-1][1] != v:
+                tr.append((tm, v, self.evno))
         for p in self.procs:
             if self.lib_int("p%d.ev" % p.pid) > 0:
                 p.ev_pos_t = tm
@@ -730,9 +740,10 @@ class SimOracle(object):
             val = fx(a[2].split("=")[1])
             w = self.rec.setdefault(ob, [])
             if name == "rec_on":
-                w.append(dict(on_t=T, on_n=n, on_val=val, off_t=None, off_n=None, off_val=None))
+                w.append(dict(on_t=T, on_n=n, on_val=val, off_t=None, off_n=None, off_val=None,
+                              on_ev=self.evno, off_ev=None))
             elif w and w[-1]["off_t"] is None:
-                w[-1].update(off_t=T, off_n=n, off_val=val)
+                w[-1].update(off_t=T, off_n=n, off_val=val, off_ev=self.evno)
             self.cls("recording-switch")
         elif name == "kcancel":
             q, h, r = a[0], int(a[1]), int(a[3])
@@ -1240,6 +1251,26 @@ class SimOracle(object):
                               "%s: at t=%s the true value is %s but the recorded history gives %s (window %d)"
                               % (name, T, val, step, wi))
                     break
+        # every change that is visible at an event boundary inside a window has its own sample:
+        # the per-event trajectory must be a subsequence of the window's samples
+        for wi, w in enumerate(wins):
+            lo = w["on_n"] - 1
+            hi = (w["off_n"] - 1) if w["off_n"] is not None else n - 1
+            if lo < 0 or hi >= n or lo > hi:
+                continue
+            seg = list(zip(xs[lo:hi + 1], ts[lo:hi + 1]))
+            want = [(float(v), T) for (T, v, ev) in self.traj.get(name, ())
+                    if ev > w["on_ev"] and (w["off_ev"] is None or ev < w["off_ev"])]
+            j = 0
+            for (v, T) in want:
+                while j < len(seg) and seg[j] != (v, T):
+                    j += 1
+                if j == len(seg):
+                    self.viol("C14", "C14/change-without-sample/%s" % kind,
+                              "%s: the value changed to %s at t=%s (visible after an event) but window %d of the history "
+                              "has no sample (%s, %s) in sequence" % (name, v, T, wi, v, T))
+                    break
+                j += 1
         if len(wins) >= 2:
             self.cls("recording-several-windows")
         if n >= 4:
